@@ -3,10 +3,11 @@ NEXT NNext
 CONSTANTS
   Mode = "pairs"
   Depth = 1
+  NFixed = {}
   NBug = "none"
   NVSpace = "small"
   NCompoundV = "tiny"
-  NKinds = {"isinstance", "issubclass", "typeis", "typeguard", "is", "eq", "in", "truthy", "len", "c_isinstance", "c_isvalue", "not", "and", "or"}
+  NKinds = {"isinstance", "issubclass", "typeis", "typeguard", "is", "eq", "in", "truthy", "len", "c_isinstance", "c_isvalue", "match", "not", "and", "or"}
 INVARIANT InvN1
 INVARIANT InvN2
 INVARIANT InvN3
